@@ -32,8 +32,10 @@ CLAIMS = {
     'C07': ('proof', 'Theorems C07_call, C07_call_return, C07_depth_limit on the ISA step, which the regenerated interpreter loop equals on every '
             'reachable state (C01_step_refines): a local call saves r6-r9 and the return address and lowers r10 by the recorded frame size; after any '
             'callee execution the matching return resumes after the call with r6-r10 restored and r0-r5 passed through; the 9th nested call is an error. '
-            'Correspondence on call graphs (depth 0..9, forward/backward, recursion, calculators); the JIT is compared with the interpreter.',
-            'JIT part is differential only; its frame-pointer defect is known finding D18. stack.rs is hand-modelled (Stack.v).'),
+            'Theorem C07_jit_local_call (over the sequence emit_local_call emits, regenerated; stack machine X86Stk.v with rsp and byte memory): rbx, r13, r14, r15 = eBPF r6..r9 '
+            'are saved and come back whatever the callee does to them, and nothing but rsp changes before the call -- so the callee is entered on the caller\'s frame '
+            'pointer, which is known finding D18. Correspondence on call graphs (depth 0..9, forward/backward, recursion, calculators); the JIT is compared with the interpreter.',
+            'JIT machine code by differential execution; its frame-pointer defect is known finding D18. stack.rs is hand-modelled (Stack.v).'),
     'C08': ('proof', 'Theorems C08_helper_call / C08_other_registers / C08_unknown_helper on the ISA step (= regenerated interpreter step): exactly the '
             'registered function applied once to (r1..r5), result in r0, other registers, frames and memory unchanged; unknown id = error. '
             'Theorem C08_jit_call_contract (over the instructions jit.rs emits around emit_call, regenerated): eBPF r1..r5 arrive in the System V argument registers, '
@@ -43,10 +45,14 @@ CLAIMS = {
             'stack-alignment probe) at call depth 0..3.',
             'Compiled engines: call-site logic proved, machine code by differential execution; System V ABI and Cranelift\'s code generation trusted.'),
     'C09': ('proof', 'Theorems C09_entry_registers / C09_entry_values: the register initialisation regenerated from interpreter.rs equals the specified '
-            'entry state (r1 = metadata buffer | packet | 0, r10 = stack top, others 0); ld_abs arms address the packet. All 4 VM kinds x 3 engines are '
+            'entry state (r1 = metadata buffer | packet | 0, r10 = stack top, others 0); ld_abs arms address the packet. C09_cranelift_entry: the registers defined by '
+            'build_function_prelude (regenerated): r1 = metadata pointer if that buffer is non-empty else the packet pointer, r10 = end of the 512-byte slot = upper bound of the '
+            'bounds-check stack region, nothing else but r2. C09_jit_prologue_*: the prologue emitted for each of the three VM-kind variants (regenerated; stack machine '
+            'X86Stk.v): rdi = packet or metadata pointer, r10 = packet pointer, rbp = rsp after the five saves with rsp 520 bytes lower, and for the fixed kind the words at '
+            'metadata + offsets hold packet start and end. All 4 VM kinds x 3 engines are '
             'probed against values derived from the buffer layout, incl. the two words of the fixed metadata buffer for 8 offset pairs, 6 packet lengths '
             'and successive executions.',
-            'lib.rs wrappers and JIT/Cranelift prologues are exercised differentially, not modelled.'),
+            'lib.rs wrappers (which pointers and lengths reach the engines) exercised differentially, not modelled.'),
     'C10': ('proof', 'Theorem C10_refinement: the implementation state machine of the VM API (theories/VmApi.v, hand-written from lib.rs) answers every finite '
             'history of calls exactly as the abstract VM in which compiled code is a function of the loaded program; corollaries: a failed set_program/'
             'set_verifier is a no-op, the loaded program was accepted by the verifier in force, executions are pure. The model is tied to the code by '
@@ -77,7 +83,8 @@ CLAIMS = {
             'access; theorem C03_muldiv_arms: for the 12 mul / div / mod opcodes the sequence built by emit_muldivmod (regenerated; sequence machine X86Seq.v with stack, '
             'flags, MUL / DIV with #DE, a lone REX.W prefix and the rel32 jump inside the sequence, instruction lengths = the proved encodings, C03_muldiv_bytes) ends with the ISA '
             'value in the destination, rax / rdx / the stack restored, only rcx clobbered, and never faults; theorems C03_byte_swaps / C03_wide_load: le / be at 16, 32, 64 bits (and, mov, '
-            'rol16 + and, bswap) and lddw leave the ISA value in the destination and touch nothing else. Searched, not proved: exit, local calls, prologue / epilogue '
+            'rol16 + and, bswap) and lddw leave the ISA value in the destination and touch nothing else; C03_epilogue: the epilogue returns eBPF r0 in rax with the caller\'s rsp, rbp, '
+            'rbx, r13-r15 (prologue: C09; helper calls: C08; local calls: C07). Searched, not proved: the CPU executing the bytes '
             'and the CPU itself, by executing compiled '
             'code in a child process against the interpreter on a corpus of ~8000 programs built to cover every opcode x every destination/source register pair x '
             'boundary immediates and displacements x control-flow shapes x program lengths above 65535 x 4 VM kinds (about 14000 runs), plus the C07 call graphs. '
